@@ -4,6 +4,7 @@ package main
 
 import (
 	"bytes"
+	"crypto/ecdsa"
 	"crypto/hmac"
 	"crypto/sha256"
 	"crypto/sha512"
@@ -165,6 +166,22 @@ func init() {
 		bin, _ := fin.MarshalBinary()
 		pub, _ := fin.Public()
 		return "ok " + ils + " " + keyFields(fin) + " " + hx(bin) + " | " + keyFields(pub)
+	}
+	// bip_frompub <x> <y> <chaincode> : FromPublicKey on a caller-owned ecdsa.PublicKey; the caller's coordinates
+	// and chain code keep their values, the key data is the compressed form of (x, y) as given
+	opImpl["bip_frompub"] = func(a []string) string {
+		x, y := new(big.Int).SetBytes(unhx(a[0])), new(big.Int).SetBytes(unhx(a[1]))
+		cc := unhx(a[2])
+		x0, y0, cc0 := new(big.Int).Set(x), new(big.Int).Set(y), append([]byte{}, cc...)
+		pub := &ecdsa.PublicKey{Curve: secp.S256(), X: x, Y: y}
+		k, err := ecckd.FromPublicKey(pub, cc)
+		if x.Cmp(x0) != 0 || y.Cmp(y0) != 0 || pub.X != x || pub.Y != y || !bytes.Equal(cc, cc0) {
+			return "CALLER-KEY-MODIFIED x=" + bigHex(x) + " y=" + bigHex(y)
+		}
+		if err != nil {
+			return "err"
+		}
+		return "ok " + hx(k.KeyData)
 	}
 	// bip_reload <A> <B> : one key object decodes A, is asked for its text and binary forms, then decodes B: every
 	// answer about B equals the answer of a fresh object (nothing remembered from A may leak, whatever A and B share)
@@ -539,6 +556,17 @@ func checksumCollision(bin []byte, limit int) ([]byte, []byte) {
 }
 
 func genC13(h *H) {
+	// FromPublicKey on caller-owned keys: valid points, x in [P, 2^256), small x, both parities, wrong chain-code lengths
+	{
+		px, py := h.affinePoint()
+		over := h.overP()
+		for _, xv := range [][]byte{be32(px), over[1], over[len(over)-1], over[10], be32(big.NewInt(1))} {
+			for _, yv := range [][]byte{be32(py), be32(new(big.Int).Add(py, big.NewInt(1)))} {
+				h.doLine("from-public-key", "bip_frompub "+hx(xv)+" "+hx(yv)+" "+hx(h.randBytes(32)))
+			}
+		}
+		h.doLine("from-public-key", "bip_frompub "+hx(be32(px))+" "+hx(be32(py))+" "+hx(h.randBytes(31)))
+	}
 	// a long-lived object reloaded with other keys, incl. a pair whose checksums collide
 	if m, err := ecckd.FromBitcoinSeed(h.randBytes(32)); err == nil {
 		c, _ := m.Child(uint32(h.rng.Intn(1 << 31)))
